@@ -21,10 +21,13 @@ import (
 // ---------------------------------------------------------------- PRNG
 
 // Rng is the only source of choice during plan generation.
-type Rng struct{ r *rand.Rand }
+type Rng struct {
+	r   *rand.Rand
+	Run uint64 // run index (lets a generator interleave a systematic enumeration with the sampled cases)
+}
 
 func NewRng(seed, run uint64, stream uint64) *Rng {
-	return &Rng{r: rand.New(rand.NewPCG(seed*0x9E3779B97F4A7C15+run, 0xD1B54A32D192ED03^stream))}
+	return &Rng{r: rand.New(rand.NewPCG(seed*0x9E3779B97F4A7C15+run, 0xD1B54A32D192ED03^stream)), Run: run}
 }
 func (g *Rng) Intn(n int) int {
 	if n <= 0 {
@@ -126,6 +129,7 @@ type Result struct {
 	SimMillis  int64          // simulated time covered
 	Extra      map[string]int // profile-specific counters (lattice points, ...)
 	Schedule   []int          // scheduler picks actually taken (sched profile); copied into the replay file
+	Lattice    []int          // enumerated lattice points this run visited (C02)
 }
 
 func newResult() *Result {
